@@ -29,7 +29,79 @@ TRUSTED = [
 CORPUS = os.path.join(vlib.VERIF, "corpus", PROP)
 
 
+def wellformed(lines):
+    """The decidable hypotheses `WellFormed` of the run-level theorems of Props/C05.lean (`unset_after_dependants`, …),
+    evaluated on the static description that is handed to the model: returns the names of the conjuncts that fail.
+    (edges are recorded at both ends and the registers exist for every class by construction of the driver's input;
+    set states are listed per object of the node by construction of `spec_lines`)"""
+    workers, nodes, edges, root = [], {}, [], None
+    for l in lines:
+        t = l.split(" ")
+        if t[0] == "worker":
+            workers.append(t[1])
+        elif t[0] == "node":
+            nodes[int(t[1])] = dict(x.split("=", 1) for x in t[2:] if "=" in x)
+        elif t[0] == "edge":
+            edges.append((int(t[1]), int(t[2])))
+        elif t[0] == "root":
+            root = int(t[1])
+    bad = set()
+    flat = {i: "f" in n["flags"] for i, n in nodes.items()}
+    if any(a not in nodes or b not in nodes for a, b in edges) or root not in nodes:
+        bad.add("graphWF")
+    for i, n in nodes.items():
+        if flat[i]:
+            continue
+        own = n["owner"]
+        if "?" in n["name"] or not own.isdigit() or int(own) >= len(workers) or \
+                any((w in n["name"]) != (j == int(own)) for j, w in enumerate(workers)):
+            bad.add("OwnerNames")
+        if not set(x.split(":")[0] for x in n["sets"].split(",") if x != "-") <= set(n["objs"].split(",")):
+            bad.add("SetsInObjs")
+    for i, a in nodes.items():
+        for j, b in nodes.items():
+            if i < j and a["cls"] == b["cls"]:
+                if flat[i] != flat[j]:
+                    bad.add("FlatClass")
+                if flat[i] or a["owner"] == b["owner"]:
+                    bad.add("CopyUniq")
+    if root in nodes and (not flat[root] or any(a == root for a, _ in edges)):
+        bad.add("RootTop")
+    return sorted(bad)
+
+
+def _record_hypotheses():
+    """remember the static description of each run and report which theorem hypotheses it meets (inherited by the forked
+    worker processes of `family_run`)"""
+    import travlib
+    if getattr(travlib, "_c05_patched", False):
+        return
+    orig_lines, orig_case = travlib.spec_lines, travlib.run_case
+
+    def spec_lines(run):
+        lines = orig_lines(run)
+        travlib._c05_last_lines = lines
+        return lines
+
+    def run_case(spec, driver, **kw):
+        travlib._c05_last_lines = []
+        res = orig_case(spec, driver, **kw)
+        res["wellformed"] = wellformed(travlib._c05_last_lines)
+        return res
+    travlib.spec_lines, travlib.run_case, travlib._c05_patched = spec_lines, run_case, True
+
+
+def _count_hypotheses(ctx, results):
+    for r in results:
+        if "wellformed" not in r or trav_common.substring_ids(r["spec"]):
+            continue
+        kind = "lazy" if (r["spec"].get("lazy") or r["spec"].get("lazyparsed")) else "pre-parsed"
+        ctx.count(f"theorem-hypotheses WellFormed ({kind}): " + ("met" if not r["wellformed"] else
+                                                                  "NOT met: " + ",".join(r["wellformed"])))
+
+
 def correspondence(ctx):
+    _record_hypotheses()
     thorough = ctx.tier == "thorough" or ctx.extra.get("drift")
     ctx.rule = ("one case = a generated synthetic graph of real TestNode objects (1-3 vms, setup chains with fan-out, multi-object "
                 "leaves, removable states; 30% with lazy expansion of flat leaves) or a really parsed graph of the shipped suite, 1-4 workers (lxc / remote clusters / serial), pool_scope subset, retry settings, "
@@ -37,8 +109,9 @@ def correspondence(ctx):
                 "traverse_object_trees runs under virtual time, its event stream is replayed block by block through the Lean "
                 "model and judged by the verified monitors " + ",".join(MONITORS) + "; non-trivial = more than two executions")
     n = 3000 if thorough else 240
-    trav_common.family_run(ctx, MONITORS, n, corpus=CORPUS, n_parsed=48 if thorough else 12,
-                            n_lazyparsed=12 if thorough else 3)
+    results = trav_common.family_run(ctx, MONITORS, n, corpus=CORPUS, n_parsed=48 if thorough else 12,
+                                     n_lazyparsed=12 if thorough else 3)
+    _count_hypotheses(ctx, results)
 
 
 def search(ctx, reason):
